@@ -152,16 +152,25 @@ class Taste(Scenario):
 
 
 class ColanderS(Scenario):
-    name = "colander"
+    """kept fields exclude the first field and are not in header order. The 'manyfiles' flavour has a
+    level spread over 14 binary files: more tasks than 4 x workers, so that a real pool ships
+    several tasks per chunk (tasks of one chunk are unpickled together and share their objects)."""
+
+    def __init__(self, flavour=""):
+        self.flavour = flavour
+        self.name = "colander" + ("_" + flavour if flavour else "")
 
     def prepare(self, work, seed):
-        m, p = _plt(work, "plt_c", seed)
+        if self.flavour == "manyfiles":
+            m, p = _plt(work, "plt_cm", seed, base_blocks=(3, 3), nfiles=14)
+        else:
+            m, p = _plt(work, "plt_c", seed)
         return {"p": p}
 
     def run(self, ctx, out, serial=False):
         from amr_kitchen.colander import Colander
         o = os.path.join(out, "strained")
-        Colander(plotfile=ctx["p"], output=o, variables=["f2", "f0"]).strain()
+        Colander(plotfile=ctx["p"], output=o, variables=["f2", "f1"]).strain()
         return {"values": None, "paths": [o]}
 
 
@@ -289,7 +298,7 @@ class Chk2pltS(Scenario):
 
 
 def all_scenarios():
-    return [ReaderSelect(), ReaderIterate(), Taste(), ColanderS(), CombineS("same"), CombineS("order"),
+    return [ReaderSelect(), ReaderIterate(), Taste(), ColanderS(), ColanderS("manyfiles"), CombineS("same"), CombineS("order"),
             CombineS("other"), ChefS(), MandolineS("3d"), MandolineS("2d"), MandolineS("plotfile"),
             PestleS(), WhipS(), Chk2pltS()]
 
